@@ -69,6 +69,7 @@ type World struct {
 	Panic   string
 	Timeout time.Duration
 	IO      IOState
+	Roots      [][]byte  // root records written by the successful flushes so far
 	PreImage   []byte    // file image before the Flush in progress
 	LastEvents []IOEvent // file calls of the last API call
 	HeapOK  map[string]bool // per collection: no key has been overwritten with a lower priority so far
